@@ -297,7 +297,8 @@ def run(c):
     if not quick:
         # length 6 on the main document: everything with VERIF_C10_FULL6=1 (16.7 M histories, about an hour on 16 cores),
         # otherwise the sixteenth that starts with a seed-chosen operation
-        firsts = ALPHA16 if os.environ.get("VERIF_C10_FULL6") else [c.rng.choice(ALPHA16)]
+        # (a first operation that is read-only or unsigns the fresh envelope adds nothing to the complete length-5 enumeration)
+        firsts = ALPHA16 if os.environ.get("VERIF_C10_FULL6") else [c.rng.choice([o for o in ALPHA16 if o[0] not in (UNSIGN, VALIDATE, VERIFY)])]
         for f in firsts:
             for mid in ALPHA16:
                 check_lines(c, "length-6", [(0, [f, mid] + list(seq)) for seq in itertools.product(ALPHA16, repeat=4)], note_samples=False,
